@@ -1013,8 +1013,10 @@ RCP<const Set> FiniteSet::set_union(const RCP<const Set> &o) const
     if (is_a<Rationals>(*o)) {
         set_basic container;
         for (const auto &elem : container_) {
+            // Rationals::contains is false for inexact numbers
             if (!is_a_Number(*elem)
-                || down_cast<const Number &>(*elem).is_complex()) {
+                || down_cast<const Number &>(*elem).is_complex()
+                || !down_cast<const Number &>(*elem).is_exact()) {
                 container.insert(elem);
             }
         }
